@@ -58,6 +58,26 @@ SIGS = [
     {"args": ["V", "N"], "ret": "V"}, {"args": ["N", "L"], "ret": "L"}, {"args": ["V", "V", "V"], "ret": "V"}, {"args": ["L", "V"], "ret": "N"},
 ]
 ENTRIES = ("find", "apply", "finditer", "find_one")
+# queries whose generators get suspended inside interesting frames and whose
+# filters look at the root: what stale per-call state would get wrong
+SUSPEND_QUERIES = [
+    "$..[?@.a]", "$[?@[?@.a > 1]]", "$..[?$.a == @.a]", "$..*", "$..[*, *]", "$[*][?@..a]", "$..[?count(@.*) > 1]",
+    "$[?@.a && $..b]", "$..[?match(@.a, 'a.*')]", "$..[?search(@.a, 'a.*')]", "$..[?search(@.b, '[ab]')]", "$..[?match(@.b, '[ab]')]",
+    "$[::-1]", "$..[1::-1]", "$[?@ == $[0]]", "$[?@ != $[-1]]", "$..[?@ == $[0]]", "$..[?@[?@ > $.a]]", "$.a..[?@ < 5, 0]",
+    "$[?length(@) > 1][?@ != null]", "$..[?count($..*) > length(@)]", "$[?$.b]", "$..[?@ == $.a || @ == $.b]", "$[?$[0] == @[0]]",
+    "$..[?value($..a) == @.a]", "$[?@ < $[1]]",
+]
+
+
+def perturb(rng, v: Any) -> Any:
+    """Same shape, different content."""
+    if isinstance(v, list):
+        return [perturb(rng, x) for x in v]
+    if isinstance(v, dict):
+        return {k: perturb(rng, x) for k, x in v.items()}
+    if rng.random() < 0.5:
+        return D.scalar(rng)
+    return v
 
 
 ISOLATE = "run"  # every run in its own fork of the (never used) worker: pristine process state
@@ -104,6 +124,9 @@ def gen_history(rng, faults: bool) -> Dict[str, Any]:
         did = f"d{i}"
         if i > 0 and rng.random() < 0.25:
             ops.append({"op": "new_doc", "id": did, "spec": {"wrap": rng.choice(docs), "as": rng.choice(("list", "dict"))}})
+        elif i > 0 and rng.random() < 0.4:
+            base = next(o for o in ops if o["op"] == "new_doc" and "json" in o["spec"])["spec"]["json"]
+            ops.append({"op": "new_doc", "id": did, "spec": {"json": perturb(rng, copy.deepcopy(base))}})
         else:
             tree = D.random_tree(rng, max_nodes=rng.choice((6, 12, 25, 60)), max_depth=rng.choice((3, 5, 8)))
             ops.append({"op": "new_doc", "id": did, "spec": {"json": tree}})
@@ -141,15 +164,37 @@ def gen_history(rng, faults: bool) -> Dict[str, Any]:
     def new_query() -> str:
         if "invalid" in enabled and rng.random() < 0.15:
             return rng.choice(Q.INVALID_TEXTS)
+        if rng.random() < 0.3:
+            return rng.choice(SUSPEND_QUERIES)
         e = rng.choice(envs)
         return Q.render(Q.gen_query(rng, _features_for(envspecs[e], rng), 0, 1))
 
     for _ in range(rng.choice((1, 2, 3, 4))):
-        qpool.append(new_query())
+        q = new_query()
+        qpool.append(q)
+        # the twin through the other regex function: a memo shared by match and search
+        if "match(" in q and rng.random() < 0.5:
+            qpool.append(q.replace("match(", "search("))
+        elif "search(" in q and rng.random() < 0.5:
+            qpool.append(q.replace("search(", "match("))
     compiled: List[str] = []
     iters: List[str] = []
     nops = rng.randint(5, 40)
+    inject_at = rng.randrange(nops) if ("iter" in enabled and rng.random() < 0.35) else -1
     for k in range(nops):
+        if k == inject_at:
+            # abandon an iterator half-way, then reuse the same compiled query elsewhere
+            cid, iid = f"c{len(compiled)}", f"i{len(iters)}"
+            q = rng.choice(SUSPEND_QUERIES) if rng.random() < 0.7 else rng.choice(qpool)
+            d1, d2 = rng.choice(docs), rng.choice(docs)
+            ops.append({"op": "compile", "id": cid, "env": rng.choice(envs), "q": q})
+            compiled.append(cid)
+            ops.append({"op": "iter_open", "id": iid, "c": cid, "doc": d1})
+            iters.append(iid)
+            ops.append({"op": "iter_next", "it": iid, "n": rng.choice((1, 1, 2, 3))})
+            ops.append({"op": rng.choice(("iter_close", "iter_drop")), "it": iid})
+            ops.append({"op": "apply", "c": cid, "doc": d2, "entry": rng.choice(ENTRIES)})
+            continue
         r = rng.random()
         if r < 0.12 and "register" in enabled:
             e = rng.choice([x for x in envs if x != "module"])
